@@ -4,7 +4,7 @@
    return: a caller that keeps calling after an ErrorToken is included), [reach d s] says s is a state
    the lexer is in after some number of calls on input d.  Slices are coordinates [lo,hi) in the buffer
    d ++ [0]; a Go panic / a read outside the buffer would be [None]. *)
-From Verif Require Import Common.Base Common.Lx Xml.Model Xml.Step Xml.Proofs.
+From Verif Require Import Common.Base Common.Lx Xml.Model Xml.Step Xml.Proofs Xml.WellFormed.
 
 (* C01 totality: for every byte string and every number of calls, no call panics (no index outside
    data ++ [0] is read, no slice expression is out of range). *)
@@ -104,3 +104,41 @@ Theorem xml_eof_at_end :
     reach d s -> next s = Some (TError, tok, s') -> xml_err s' = 1 /\ lpos (xr s') = len d.
 Proof. exact xml_eof_at_end_proof. Qed.
 Print Assumptions xml_eof_at_end.
+
+(* C11 well-formed documents.  [item] / [doc_ok] (Xml/WellFormed.v) is an inductive grammar of the XML 1.0
+   subset of the property: processing instructions and the prolog with pseudo-attributes, DOCTYPE with
+   external id and internal subset (plain bytes, double-quoted literals that may contain '>' '[' ']',
+   bracketed subsets whose content may contain '>'), comments (any body without the three bytes - - >), CDATA sections
+   (any body without the three bytes ] ] >), start / empty-element / end tags with names, whitespace variations and
+   single- or double-quoted attribute values (any bytes but the quote and NUL, the other quote and
+   '>' '/>' '?>' included), maximal character data.  For every such document the lexer returns exactly
+   one token per construct, with the prescribed type, the construct's bytes, Text() = name / content
+   and AttrVal() = the quoted value with TAB/LF/CR read as space, and then io.EOF.
+   PARTIAL: not covered by the grammar, because the code does not treat them as XML 1.0 does (see the
+   two refuted clauses below and KNOWN_FINDINGS): single-quoted DOCTYPE literals containing '>', a
+   double quote, '[' or ']', comments and PIs inside the internal subset containing ']' or a double
+   quote, and PI content that is not a
+   list of pseudo-attributes.  Agreement with encoding/xml is checked by search only. *)
+Theorem xml_wellformed_tokens_partial :
+  forall items, doc_ok items -> lexes (xml_init (render_doc items)) (expect_doc items) 1.
+Proof. exact xml_wellformed_tokens_proof. Qed.
+Print Assumptions xml_wellformed_tokens_partial.
+
+(* Refuted reading "every well-formed DOCTYPE is one token": <!DOCTYPE a SYSTEM 'x>y'><a/> is lexed as
+   DOCTYPE [0,22) = <!DOCTYPE a SYSTEM 'x>   then Text y'>  then StartTag ... (only the double quote counts
+   as a quote inside DOCTYPE). *)
+Theorem xml_doctype_single_quote_refuted :
+  exists d, d = ex_doctype_squote /\
+    option_map (map (fun r => (fst (fst r), snd (fst r)))) (run 3 (xml_init d)) =
+    Some [(TDoctype, Some (0, 22)); (TText, Some (22, 25)); (TStartTag, Some (25, 27))].
+Proof. exact xml_doctype_single_quote_refuted_proof. Qed.
+Print Assumptions xml_doctype_single_quote_refuted.
+
+(* Refuted reading "every processing instruction is StartTagPI ... StartTagClosePI": in <?p a>b?><a/>
+   the '>' is returned as StartTagClose and b?> as Text. *)
+Theorem xml_pi_content_refuted :
+  exists d, d = ex_pi_gt /\
+    option_map (map (fun r => (fst (fst r), snd (fst r)))) (run 4 (xml_init d)) =
+    Some [(TStartTagPI, Some (0, 3)); (TAttribute, Some (3, 5)); (TStartTagClose, Some (5, 6)); (TText, Some (6, 9))].
+Proof. exact xml_pi_content_refuted_proof. Qed.
+Print Assumptions xml_pi_content_refuted.
